@@ -118,7 +118,11 @@ def run(ctx, funcs, timeout, is_meta_arg):
     if is_meta_arg is not None:
         p.pc.append(is_meta == z3.BoolVal(is_meta_arg))
     tag = {True: "metadata-file", False: "data-file", None: "by-name"}[is_meta_arg]
-    outs = eng.run("update_file_custom_metadata", p, [Custom(PathStr(is_meta)), Opaque("custom_metadata"), arg])
+    # what the file NAME says is independent of what the file IS when the caller states the kind explicitly (a data file may be
+    # called `sensor_metadata`): an explicit True / False must be honoured whatever the name; only with the argument left at None
+    # the name decides (requires: the name then tells the truth)
+    name_says_meta = is_meta if is_meta_arg is None else z3.Bool("path_ends_with__metadata")
+    outs = eng.run("update_file_custom_metadata", p, [Custom(PathStr(name_says_meta)), Opaque("custom_metadata"), arg])
     res.add_engine_obligations(eng, f"update[{tag}].", timeout)
     n_normal = 0
     k = z3.Int("k_skolem")
